@@ -253,7 +253,13 @@ func (n *nativeRunner) runMode(pkg, fn string, nd []sym.NDValue, race, sched boo
 	rf := filepath.Join(n.work, "replay_"+tag+".json")
 	b, _ := json.Marshal(map[string]interface{}{"nd": nd})
 	os.WriteFile(rf, b, 0o644)
-	cmd := exec.Command(bin, "-test.run", "^TestVerifReplay$", "-test.count=1", "-test.timeout", timeout.String())
+	args := []string{bin, "-test.run", "^TestVerifReplay$", "-test.count=1", "-test.timeout", timeout.String()}
+	cmd := exec.Command(args[0], args[1:]...)
+	if !race {
+		// a counterexample may be an enormous allocation: cap the replay's address space (the race detector's
+		// shadow memory does not fit under such a cap)
+		cmd = exec.Command("sh", append([]string{"-c", `ulimit -v 8388608; exec "$@"`, "sh"}, args...)...)
+	}
 	cmd.Dir = filepath.Join(n.repo, pkg)
 	cmd.Env = append(os.Environ(), "VERIFND_REPLAY="+rf, "VERIFND_FN="+fn, "VERIF_TIER="+n.tier)
 	if sched {
